@@ -72,10 +72,13 @@ def iqrm_mask(array: np.ndarray, threshold: float = 3, radius: int = 5) -> np.nd
         raise ValueError(msg)
     mask = np.zeros_like(array, dtype="bool")
     lags = np.concatenate([np.arange(-radius, 0), np.arange(1, radius + 1)])
+    # The window view walks the padded copy, so it takes that array's strides
+    # (the input may be a strided view)
+    padded = np.pad(array, radius, mode="edge")
     shifted_x = np.lib.stride_tricks.as_strided(
-        np.pad(array, radius, mode="edge"),
+        padded,
         shape=(len(array), 2 * radius + 1),
-        strides=array.strides * 2,
+        strides=padded.strides * 2,
     )
     lagged_diffs = array[:, np.newaxis] - shifted_x[:, lags + radius]
     lagged_diffs = lagged_diffs.T
